@@ -225,6 +225,11 @@ def run(ctx):
             # the property promises promptness only for small literals, exponents, factorial arguments and range lengths
             hist["slow-on-huge-argument"] = hist.get("slow-on-huge-argument", 0) + 1
             continue
+        if o.get("hung") and not strict:
+            # plot-valued calls reach matplotlib (first import builds a font cache, seconds on a fresh machine):
+            # rendering is outside the model, and its wall-clock is not the evaluator's
+            hist["slow-plot-rendering"] = hist.get("slow-plot-rendering", 0) + 1
+            continue
         if o.get("hung"):
             hist["hung"] = hist.get("hung", 0) + 1
             rep.violation(dict(kind="hang", head=sig_of(text, "")["head"]), "C06 fails: `%s` did not return within the time limit" % text[:200],
